@@ -19,6 +19,10 @@ CHECKS = {
             "bounded exhaustive exploration of histories with reopen at every position vs reference map",
             "Reopen is allowed at every position up to 2 (3) times on standard and key-value-separated trees; after it every read equals the model restricted to flushed/ingested writes (value and seqno), table/blob counts, highest persisted seqno, gc stats and the level/run/table shape are unchanged, and the exploration continues writing, flushing and compacting on the reopened tree (any error or id collision is a violation).",
             "7 C04", HX_NOTE),
+    "C05": ("crash", "fault_enumeration",
+            "exhaustive crash-point x persistence-outcome enumeration over the strace mutation log, recovery by the real Config::open",
+            "One traced run per history yields every create/write/truncate/fsync/rename/unlink/mkdir; after each of them every crash image a POSIX file system may leave (per directory every subset of unsynced entry operations, per file every unsynced write boundary and a torn last write; strict POSIX and ext4-like fsync semantics) is built, de-duplicated, and recovered in a worker process: it must open, read as the state before or after the interrupted op (exactly the state after it once the op had returned), and accept a write, flush and major compaction.",
+            "6.1, 7 C05", "Trusted base: the file-system model (engine/src/crash.rs), self-checked per history by replaying the whole log and comparing with the real directory; strace; the tree directory's own entry in its parent is assumed durable."),
     "C07": ("hx", "model_checking",
             "bounded exhaustive exploration of histories with a structural audit of every published version",
             "After every step of every explored history the current version is audited: runs ascending and pairwise disjoint by actual contents and by metadata, read-order precedence of sequence numbers between tables sharing a key, metadata (key range, seqno range, item/tombstone/weak-tombstone counts) equal to a full scan, files exist, and the v<id> file decoded by an independent decoder (plus `current`) equals the published structure.",
@@ -55,6 +59,10 @@ CHECKS = {
             "bounded exhaustive exploration of histories with every drop_range bound pair / clear from nine seed layouts vs reference map",
             "From nine layouts over keys a-d (memtable only, one table, one table per key, two runs, tombstone table over values, table + memtable) every drop_range over {unbounded, included, excluded} x {keys, gaps, below, above} (empty and inverted included) or clear is combined with a snapshot before/after, one more write, (thorough) one maintenance op and reopen: keys outside the range and every earlier snapshot are exact, keys inside may only return values written for them, inverted ranges change nothing, clear empties later snapshots only.",
             "7 C15", HX_NOTE),
+    "C16": ("fault", "fault_enumeration",
+            "every file-system call of every op failed once via strace fault injection, two continuations each",
+            "For every history and every syscall an op issues (reads included), one run per errno (ENOSPC/EIO) with exactly that call failing: if the op returns Err every read/scan at MAX and at held snapshots must equal what it was before the call, nothing may stay hidden, the op must succeed when repeated, the rest of the history must reach the clean run's states, and an immediate reopen must show the state before or after the call; an absorbed fault must leave the run equal to the clean run; a panic or abort is a violation.",
+            "6.2, 7 C16", "Trusted base: strace inject semantics (the call is not executed and returns the error), syscall ordinals from a clean traced run of the deterministic subject. Single fault per run."),
     "C17": ("hx", "model_checking",
             "bounded exhaustive exploration of histories x verdict functions with an instrumented compaction filter feeding the reference map",
             "Every map {a,b} -> {Keep, Remove, RemoveWeak, ReplaceValue small, ReplaceValue big, Destroy} (quick: every 5th) is installed as compaction filter on standard and blob trees; the filter logs every entry it is shown, the model applies the verdict to exactly that entry (unconstrained for RemoveWeak/Destroy on keys written more than once), and all reads/scans at new and held snapshots must follow; a tombstone shown to the filter or an entry that is no live value is an anomaly.",
@@ -75,7 +83,7 @@ CHECKS = {
 
 NOT_YET = {
     "_C03": "check not built yet (hx stage 2: range bounds x next/next_back interleavings) - in progress",
-    "C05": "check not built yet (crash engine) - in progress",
+    "_C05": "check not built yet (crash engine) - in progress",
     "C06": "check not built yet (sched engine) - in progress",
     "_C08": "check not built yet (hx differential blob vs standard) - in progress",
     "_C09": "check not built yet (hx blob gc accounting oracle) - in progress",
@@ -83,7 +91,7 @@ NOT_YET = {
     "C11": "check not built yet (configuration product) - in progress",
     "_C12": "check not built yet (tablemc engine) - in progress",
     "_C15": "check not built yet (hx drop_range/clear alphabet) - in progress",
-    "C16": "check not built yet (fault engine) - in progress",
+    "_C16": "check not built yet (fault engine) - in progress",
     "_C17": "check not built yet (hx instrumented compaction filter) - in progress",
     "_C19": "check not built yet (hx FIFO alphabet with clock seam) - in progress",
 }
